@@ -481,6 +481,8 @@ def main():
         if k is not None:
             seen_known.add(k['id'])
             continue
+        if len(violations) >= 3:
+            break
         if r.get('raw'):
             violations.append((r['path'], ""))
             continue
